@@ -144,6 +144,14 @@ fn c07_exec(plan: &Value, t: &mut Trials) -> RunReport {
     crate::ccorrupt::exec(&plan, t)
 }
 
+fn c23_gen(seed: u64, run: u64, tier: Tier) -> Value {
+    serde_json::to_value(crate::cconc::generate(seed, run, tier)).unwrap()
+}
+fn c23_exec(plan: &Value, t: &mut Trials) -> RunReport {
+    let plan: crate::cconc::Plan = serde_json::from_value(plan.clone()).expect("bad plan");
+    crate::cconc::exec(&plan, t)
+}
+
 const MODEL_RULE: &str = "histories = seeded sequences of public-API queries (node/edge/value/alias/index inserts, updates, removals by id, alias and search, explicit transactions with a seeded abort point) executed on one of the six database variants over SimFs, half of them interleaved with clean restarts (only durable state survives), reopening with another file-backed variant, optimize_storage and shrink_to_fit, plus benign I/O noise and the forced contended-read path; evaluations = points at which the complete observable state (every read query over every element, alias, index and the elements search, plus slice/selection probes) was compared with the abstract model; distinct_nontrivial = distinct histories (program hash) containing at least one removal and then either an id reuse or a hash-table rehash (probe)";
 const MODEL_ASSUME: &[&str] = &[
     "the model takes new element ids from the database's answer (checking sign and freshness) and search targets from the database's own search result, so it carries no id-allocation or search semantics",
@@ -299,6 +307,26 @@ pub fn all() -> Vec<CheckDef> {
         real: DB_REAL,
         stub: FS_STUB,
         eval_unit: "(mutated image, constructor) trials",
+    });
+    v.push(CheckDef {
+        id: "C23",
+        level: "exploration",
+        generate: c23_gen,
+        exec: c23_exec,
+        steps: "/reads",
+        runs: |t| match t {
+            Tier::Quick => 400,
+            Tier::Thorough => 8000,
+        },
+        wall_cap_s: |t| match t {
+            Tier::Quick => 150,
+            Tier::Thorough => 1700,
+        },
+        rule: "a seeded database on DbFile / DbAny(file) over SimFs; a seeded list of read queries (select values/keys/key count/aliases/all aliases/indexes/node count/edge count, elements search with limit/offset, BFS/DFS, index search, read transactions of several queries) whose sequential results are recorded first; 2-4 shuttle-scheduled reader threads each run a seeded subsequence under RwLock::read with a scheduling point inside every simulated open/seek/read; schedulers: seeded random and PCT depth 2-3; evaluations = schedules executed, every result compared with its sequential baseline; distinct_nontrivial = distinct file-system call interleavings (event-log hash) among schedules in which the contended path (fresh file handle) ran at least once",
+        assumptions: &["readers only (the documented usage: RwLock read guards); writers are excluded by the lock", "shuttle controls the interleaving at simulated I/O calls; code between two I/O calls runs atomically"],
+        real: DB_REAL,
+        stub: &["disk: in-memory SimFs with a scheduling point in every open/seek/read", "thread scheduler: shuttle 0.9.3 (random, PCT); RwLock: shuttle::sync::RwLock"],
+        eval_unit: "schedules",
     });
     v.push(model_def("C08", c08_gen, c08_exec));
     v.push(model_def("C09", c09_gen, c09_exec));
